@@ -376,3 +376,108 @@ func ZZ_C20_H3() {
 		zz.Assert("boolean-operators-yield-booleans", isb)
 	}
 }
+
+// ZZ_C20_H5: the built-in regexp() on string operands, with unary negation and inside a logical
+// expression: regexp('<pattern>', '<text>') is true exactly when the text matches, ! negates it,
+// !! leaves it, and it combines with && / || like any boolean. (What regexp() yields on a
+// non-string operand is not fixed by the documentation and is not asserted.)
+func ZZ_C20_H5() {
+	pi := zz.Choose("pattern", 3)
+	ti := zz.Choose("text", 4)
+	pat := []string{"^a", "b$", "^$"}[pi]
+	txt := []string{"", "a", "ab", "ba"}[ti]
+	match := false
+	switch pi {
+	case 0:
+		match = len(txt) > 0 && txt[0] == 'a'
+	case 1:
+		match = len(txt) > 0 && txt[len(txt)-1] == 'b'
+	case 2:
+		match = txt == ""
+	}
+	bangs := zz.Choose("bangs", 3)
+	val := match
+	if bangs == 1 {
+		val = !match
+	}
+	expr := "!!"[:bangs] + "regexp('" + pat + "', '" + txt + "')"
+	want := val
+	switch zz.Choose("context", 4) {
+	case 1:
+		expr += " && true"
+	case 2:
+		expr = "false || " + expr
+	case 3:
+		expr = expr + " == false"
+		want = !val
+	}
+	e, err := parseExpr(expr)
+	zz.Cover("reached-assert", true)
+	zz.Cover("matched", match)
+	zz.Assert("parses", err == nil)
+	if err != nil {
+		return
+	}
+	got, ok := e.run("", nil).(bool)
+	zz.Assert("regexp-function-matches-and-negates", ok && got == want)
+}
+
+var zzRepOps = []int{0, 3, 7, 9, 11, 12} // one operator per precedence level: * + > == && ||
+
+// ZZ_C20_H4: long parenthesis-free runs. Chains of K (4 to 5) operators, one representative per
+// precedence level, in every order - so that runs of four and five ascending or descending
+// levels occur -, each operand a number from a fixed pattern or a boolean literal (ill-typed
+// combinations are filtered by the reference before the parser runs): value equals the reference
+// precedence-climbing evaluation.
+func ZZ_C20_H4() {
+	k := zz.Range("operators", 4, zz.Param("K", 4))
+	var ops, nums []int
+	for i := 0; i <= k; i++ {
+		// a number from a fixed pattern, or a boolean literal (the typing filter keeps the
+		// combinations that make sense)
+		switch zz.Choose("operandKind", 3) {
+		case 0:
+			nums = append(nums, []int{1, 2, 3, 2, 1, 4}[i%6]) // indexes into zzNums: 1 2 3 2 1 7
+		case 1:
+			nums = append(nums, 5) // true
+		case 2:
+			nums = append(nums, 6) // false
+		}
+		if i < k {
+			ops = append(ops, zzRepOps[zz.Choose("operator", len(zzRepOps))])
+		}
+	}
+	expr := ""
+	vals := make([]zzVal, k+1)
+	for i := 0; i <= k; i++ {
+		expr += zzNums[nums[i]]
+		switch nums[i] {
+		case 5:
+			vals[i] = zzVal{isBool: true, b: true}
+		case 6:
+			vals[i] = zzVal{isBool: true, b: false}
+		default:
+			vals[i] = zzVal{f: zzNumVals[nums[i]]}
+		}
+		if i < k {
+			expr += " " + zzOps[ops[i]] + " "
+		}
+	}
+	want, _ := zzRefEval(vals, ops, 0, k, 1)
+	zz.Assume(!want.bad && !want.unspec)
+	e, err := parseExpr(expr)
+	zz.Cover("reached-assert", true)
+	zz.Assert("parses", err == nil)
+	if err != nil {
+		return
+	}
+	got := e.run("", nil)
+	zz.Cover("bool-result", want.isBool)
+	if want.isBool {
+		b, ok := got.(bool)
+		zz.Assert("bool-value-matches-documented-precedence", ok && b == want.b)
+	} else {
+		f, ok := got.(float64)
+		zz.Assert("numeric-value-matches-documented-precedence", ok && (f == want.f || (math.IsNaN(f) && math.IsNaN(want.f))))
+	}
+}
